@@ -39,6 +39,7 @@ def run(chk):
     )
     chk.rule("R1", "right-column suffixing is independent of set order and only stops when no suffixed name collides")
     chk.rule("R1s", "shape of the suffix search: counter loop re-checks every right name, final suffix carries the counter, three rename sites")
+    chk.rule("R6v", "join validation and right-column suffixing interpreted on stub tables (both set iteration orders): refusals, and after acceptance the right names are unique, disjoint from the left names, left names unchanged")
     chk.rule("R2", "how -> join kind: Polars passes how/validate through; SQL isouter <=> how != inner, full <=> how == full")
     chk.rule("R3", "right input's WHERE: inner -> WHERE, left -> ON, full -> asserted empty")
     chk.rule("R4", "subquery guards for Join exist (hazard-table rows)")
@@ -203,6 +204,8 @@ def run(chk):
     chk.ob("R5", cache, sib.cfgs["cache"].func, "cache Join: derived_from = left | right", both_inputs,
            "the join result is not derived from both inputs: references to the right table's columns would be rejected / self-joins not detected")  # fmt: skip
 
+    _join_scenarios(chk, model_of(chk))
+
     # ---- R6
     instances = [
         ("different back ends -> TypeError", "TypeError", ["backend"]),
@@ -289,3 +292,87 @@ def run(chk):
         lo, ro = kwarg(joins[0], "left_on"), kwarg(joins[0], "right_on")
         chk.ob("R7", pol, joins[0], "polars join(left_on=<left_on>, right_on=<right_on>)", "in left_on" in norm(lo) and "in right_on" in norm(ro),
                "left and right key lists are swapped in the Polars join call")  # fmt: skip
+
+
+def _join_scenarios(chk, m):
+    """R6v: `join` interpreted (verbsim) with an empty `on` list: the refusals that depend on table metadata, and the
+    naming of the right columns.  Every scenario runs with ascending and descending set iteration order."""
+    from ..catalogue import DT, _ModuleNS
+    from ..interp import Obj
+    from ..verbsim import Native, World
+
+    vb = chk.repo.mod("pipe.verbs")
+    f = vb.func("join")
+    I = DT("Int64")
+
+    def cols(*names):
+        return [(n_, I) for n_ in names]
+
+    scen = [
+        # label, left cols, right cols, right table name, kwargs, expectation
+        ("different back ends", cols("a"), cols("b"), "r", dict(rb="sqlite"), ("raise", "TypeError")),
+        ("grouped left input", cols("a"), cols("b"), "r", dict(lg=("a",)), ("raise", "ValueError")),
+        ("grouped right input", cols("a"), cols("b"), "r", dict(rg=("b",)), ("raise", "ValueError")),
+        ("common ancestor", cols("a"), cols("b"), "r", dict(shared=True), ("raise", "ValueError")),
+        ("user suffix collides with a left name", cols("a", "a_x"), cols("a"), "r", dict(suffix="_x"), ("raise", "ValueError")),
+        ("user suffix, no collision", cols("a", "b"), cols("a", "c"), "r", dict(suffix="_x"), ("names",)),
+        ("disjoint names", cols("a", "b"), cols("c", "d"), "r", {}, ("names",)),
+        ("one clashing name", cols("a", "b"), cols("a", "c"), "r", {}, ("names",)),
+        ("suffixed name exists on the left", cols("a", "a_r"), cols("a"), "r", {}, ("names",)),
+        ("chain of suffixed names on the left", cols("a", "a_r", "a_r_1"), cols("a"), "r", {}, ("names",)),
+        ("counter needed for one name only (order of the right names matters for a carried counter)", cols("a_r_1", "b_r", "a", "b"), cols("a", "b"), "r", {}, ("names",)),
+        ("counter needed, other order", cols("b_r_1", "a_r", "a", "b"), cols("a", "b"), "r", {}, ("names",)),
+        ("unnamed right table", cols("a"), cols("a"), None, {}, ("names",)),
+    ]
+    n = 0
+    for label, lc, rc, rname, kw, want in scen:
+        for order in ("asc", "desc"):
+            w = World(vb)
+            w.it.set_order = order
+            w.env["itertools"] = _ModuleNS({"chain": Native(lambda *a: [x for it_ in a for x in it_], "chain")})
+            w.env["LiteralCol"] = Native(lambda v, _w=w: _w.obj("Lit", val=v), "LiteralCol")
+            w.env["ColFn"] = w.env["ColName"]  # no function nodes occur in an empty condition
+            w.env["split_join_cond"] = Native(lambda on: [], "split_join_cond")
+            w.accept_on("Join_never")
+            w.env["Join"] = Native(lambda *a, **k: w.obj("Ast", name="join"), "Join")
+            left = w.table("l", lc, grouped=kw.get("lg", ()))
+            right = w.table(rname, rc, grouped=kw.get("rg", ()), backend=kw.get("rb", "polars"))
+            if kw.get("shared"):
+                right.attrs["_cache"].attrs["derived_from"] = set(right.attrs["_cache"].attrs["derived_from"]) | set(left.attrs["_cache"].attrs["derived_from"])
+            # the literal `on` of an empty join condition: an object without sub-expressions
+            lit = w.obj("Col", name="<lit>", _uuid="lit")
+            got = w.run(f, [left, right, [], "inner"], {"suffix": kw.get("suffix")})
+            n += 1
+            if want[0] == "raise":
+                ok = got[0] == "raise" and got[1] == want[1]
+                detail = f"expected {want[1]}, got {got[:3]}"
+            else:
+                ok = False
+                detail = f"expected acceptance, got {got[:3]}"
+                if got[0] == "accepted" and got[1] == "Cache.update":
+                    pass
+            if want[0] == "names":
+                # re-run capturing the caches handed to Cache.update
+                from ..verbsim import Accepted
+                from ..interp import Func, PyRaise
+
+                try:
+                    w.it.call(Func(f, w.env, w.it), [left, right, [], "inner"], {"suffix": kw.get("suffix")}, f, w.env)
+                    ok, detail = False, "join returned without updating the cache"
+                except Accepted as a_:
+                    lcache, _node, rcache = a_.args_
+                    ln = list(lcache.attrs["name_to_uuid"])
+                    rn_ = list(rcache.attrs["name_to_uuid"])
+                    problems = []
+                    if sorted(ln) != sorted(x for x, _ in lc):
+                        problems.append(f"left names changed to {ln}")
+                    if len(set(rn_)) != len(rn_) or len(rn_) != len(rc):
+                        problems.append(f"right names not unique / lost: {rn_}")
+                    if set(rn_) & set(ln):
+                        problems.append(f"names {sorted(set(rn_) & set(ln))} occur in both inputs after suffixing")
+                    ok, detail = not problems, "; ".join(problems) or f"right names {rn_}"
+                except PyRaise as p_:
+                    ok, detail = False, f"raises {p_.name}: {p_.msg}"
+            chk.ob("R6v", vb, f, f"join [{order}]: {label}", ok,
+                   f"join, scenario `{label}` (set iteration order {order}): {detail}")  # fmt: skip
+    chk.floor("R6v", "join scenarios x iteration orders", n, 20)
